@@ -15,7 +15,7 @@ from .report import AnalysisError
 PKG = "piquasso"
 
 
-@dataclass
+@dataclass(eq=False)
 class FuncInfo:
     name: str
     qualname: str  # module:Class.method or module:function
@@ -71,7 +71,7 @@ class FuncInfo:
         return False
 
 
-@dataclass
+@dataclass(eq=False)
 class ClassInfo:
     name: str
     module: "ModuleInfo"
@@ -124,7 +124,7 @@ class ClassInfo:
         return ast.get_docstring(self.node) or ""
 
 
-@dataclass
+@dataclass(eq=False)
 class ModuleInfo:
     name: str
     path: str
@@ -281,7 +281,12 @@ class Index:
         if name in m.classes:
             return m.classes[name]
         if name in m.assigns:
-            return ("expr", m, m.assigns[name])
+            e = m.assigns[name]
+            if isinstance(e, (ast.Name, ast.Attribute)) and not (isinstance(e, ast.Name) and e.id == name):
+                r = self._resolve_alias(m, e, _depth + 1)
+                if r is not None:
+                    return r
+            return ("expr", m, e)
         if name in m.imports:
             mod, attr = m.imports[name]
             if attr is None:
@@ -302,6 +307,13 @@ class Index:
                 return self.modules[sub]
             return ("external", sub)
         return None
+
+    def _resolve_alias(self, m: ModuleInfo, e: ast.AST, depth: int):
+        if depth > 12:
+            return None
+        if isinstance(e, ast.Name):
+            return self.resolve_name(m, e.id, depth)
+        return self.resolve_expr(m, e)
 
     def resolve_expr(self, m: ModuleInfo, node: ast.AST):
         """Resolve Name / dotted Attribute chains through modules and classes."""
